@@ -1,11 +1,34 @@
-import Lean.Data.Json
-import Anytree.Model.Tree
-open Lean
-partial def loop (h : IO.FS.Stream) : IO Unit := do
-  let line ← h.getLine
-  if line.isEmpty then return ()
+import Anytree.Drv.Iter
+/-!
+Line-protocol driver: one JSON case per input line, one JSON object per output line:
+`{"mirror": <what the model of the code computes>, "spec": <what the specification demands>}`
+or `{"error": msg}` when the case cannot be decoded (a harness bug, never a verdict).
+-/
+open Lean Anytree.Drv
+
+def dispatch (j : Json) : R (Json × Json) := do
+  let fam ← getStr j "fam"
+  match fam with
+  | "iter" => runIter j
+  | f => throw s!"unknown family {f}"
+
+def handle (line : String) : String :=
   match Json.parse line with
-  | .ok j => IO.println j.compress
-  | .error e => IO.println s!"err {e}"
-  loop h
-def main : IO Unit := do loop (← IO.getStdin)
+  | .error e => (Json.mkObj [("error", s!"parse: {e}")]).compress
+  | .ok j =>
+    match dispatch j with
+    | .ok (m, s) => (Json.mkObj [("mirror", m), ("spec", s)]).compress
+    | .error e => (Json.mkObj [("error", e)]).compress
+
+partial def loop (hin : IO.FS.Stream) (hout : IO.FS.Stream) : IO Unit := do
+  let line ← hin.getLine
+  if line.isEmpty then return ()
+  if line.trimAscii.isEmpty then loop hin hout else
+  hout.putStrLn (handle line)
+  loop hin hout
+
+def main : IO Unit := do
+  let hin ← IO.getStdin
+  let hout ← IO.getStdout
+  loop hin hout
+  hout.flush
